@@ -388,6 +388,7 @@ Qed.
 
 (** ** general dominance: the quadrature oracle returns the integral *)
 Section GeneralH.
+  Variable ovf : R.
   Variable quad : (R -> R) -> R -> R -> R.
   Hypothesis quad_is_RInt : forall f a b, quad f a b = RInt f a b.
 
@@ -419,7 +420,7 @@ Section GeneralH.
   (** both branches of the numerator are e^{Q(x)} int_x^1 e^{-Q} / int_0^1 e^{-Q} (the Qadjust factor cancels) *)
   Lemma Qf_R g h x : Qf g h x = QR g h x.
   Proof. unfold Qf, QR, nfour, n2. numR. two. ring. Qed.
-  Lemma qadjust_nonneg g : 0 <= g -> qadjust g = 0.
+  Lemma qadjust_nonneg g : 0 <= g -> qadjust ovf g = 0.
   Proof.
     intros Hg. unfold qadjust, nltb. numR.
     replace (Rleb 0 g) with true by (symmetry; apply Rleb_true; exact Hg). reflexivity.
@@ -427,7 +428,7 @@ Section GeneralH.
 
   (** both branches of the numerator are e^{Q(x)} int_x^1 e^{-Q} / int_0^1 e^{-Q} (the Qadjust factor cancels) *)
   Lemma general_raw_canonical g h x :
-    general_raw quad g h (general_int0 quad g h) x = exp (QR g h x) * RInt (eQ g h) x 1 / RInt (eQ g h) 0 1.
+    general_raw ovf quad g h (general_int0 ovf quad g h) x = exp (QR g h x) * RInt (eQ g h) x 1 / RInt (eQ g h) 0 1.
   Proof.
     pose proof (I0_pos g h) as HI.
     unfold general_raw, general_int0. rewrite !quad_is_RInt.
@@ -439,7 +440,7 @@ Section GeneralH.
       rewrite (RInt_ext (integrand_in g h x) (fun xi => exp (QR g h x) * eQ g h xi) x 1)
         by (intros; apply integrand_in_R).
       rewrite RInt_scaled. rewrite Ropp_0, exp_0. field. lra.
-    - generalize (qadjust g). intros qa. pose proof (exp_pos (- qa)) as Hq.
+    - generalize (qadjust ovf g). intros qa. pose proof (exp_pos (- qa)) as Hq.
       rewrite (RInt_ext (integrand_adj g h qa) (fun xi => exp (- qa) * eQ g h xi) 0 1)
         by (intros; apply integrand_adj_R).
       rewrite (RInt_ext (integrand_adj g h qa) (fun xi => exp (- qa) * eQ g h xi) x 1)
@@ -481,7 +482,7 @@ Section GeneralH.
       the flux J = M phi - (V phi)'/2 = gamma 2 (h+(1-2h)x) G - G'/(2 nu b) is the same at every x *)
   Lemma general_h_is_stationary_lemma nu theta0 gamma h beta x : 0 < nu -> 0 < beta ->
     let b := bR beta in let g := gamma * nu * b in let K := nu * theta0 * b in
-    (0 < x < 1 -> x * (1 - x) * (general_raw quad g h (general_int0 quad g h) x * (1 / (x * (1 - x))) * nu * theta0 * bfac beta)
+    (0 < x < 1 -> x * (1 - x) * (general_raw ovf quad g h (general_int0 ovf quad g h) x * (1 / (x * (1 - x))) * nu * theta0 * bfac beta)
                   = Gh K g h x) /\
     is_derive (Gh K g h) x (Gh1 K g h x) /\
     gamma * 2 * (h + (1 - 2 * h) * x) * Gh K g h x - Gh1 K g h x / (2 * nu * b) = theta0 / 2 * / RInt (eQ g h) 0 1 /\
@@ -514,7 +515,7 @@ Section GeneralH.
   Qed.
 
   Lemma general_h_at_half_lemma g x : g <> 0 ->
-    general_raw quad g (1 / 2) (general_int0 quad g (1 / 2)) x = ratio (2 * g) (1 - x).
+    general_raw ovf quad g (1 / 2) (general_int0 ovf quad g (1 / 2)) x = ratio (2 * g) (1 - x).
   Proof.
     intros Hg. rewrite general_raw_canonical. rewrite !RInt_eQ_half by exact Hg. unfold ratio.
     assert (HD : 1 - exp (- (2 * g)) <> 0).
@@ -531,8 +532,8 @@ Section GeneralH.
 
   (** the interior entries of the two code paths agree at h = 1/2, and so does the x = 1 value (Qadjust = 0) *)
   Lemma general_h_at_half_is_genic_lemma g x : g <> 0 -> -300 < g ->
-    general_raw quad g (1 / 2) (general_int0 quad g (1 / 2)) x * (1 / (x * (1 - x))) = genic_pt g x /\
-    (qadjust g = 0 -> g < 300 -> 1 / general_int0 quad g (1 / 2) = genic_limit g).
+    general_raw ovf quad g (1 / 2) (general_int0 ovf quad g (1 / 2)) x * (1 / (x * (1 - x))) = genic_pt g x /\
+    (qadjust ovf g = 0 -> g < 300 -> 1 / general_int0 ovf quad g (1 / 2) = genic_limit g).
   Proof.
     intros Hg HA. split.
     - rewrite general_h_at_half_lemma by exact Hg. rewrite genic_pt_A by exact HA. rewrite genicA_ratio. ring.
